@@ -987,6 +987,12 @@ func (this *HuffmanDecoder) decodeChunkV5(block []byte, count int) (int, error) 
 	// Read compressed data from the bitstream
 	if szBits != 0 {
 		sz := int(szBits+7) >> 3
+
+		if sz > max(2*count, 1024) {
+			// A symbol takes at most 12 bits: protect against corrupted bitstream
+			return 0, errors.New("Invalid Huffman data: incorrect chunk size")
+		}
+
 		minLenBuf := max(sz+(sz>>3), 1024)
 
 		if len(this.buffer) < int(minLenBuf) {
